@@ -36,7 +36,31 @@ def check(repo: Repo) -> Result:
     comparison_handlers(repo, res)
     testing_helpers(repo, res)
     decorators(repo, res)
+    named_dimensions(repo, res)
     return res
+
+
+def named_dimensions(repo, res):
+    """C19-R5: `@accepts(x=pop)` lets a call through exactly when x has the dimension called pop: every name of
+    unyt.dimensions (constant-folded from the source) must denote the dimension its physical definition gives
+    (spec/dimension_definitions.py, written independently) - a slip in this table changes which arguments the
+    decorators accept although every unit and conversion stays right."""
+    from engine.fold import Tables
+    from spec.dimension_definitions import DIMENSIONS
+
+    r5 = res.rule("C19-R5", "every named dimension of unyt.dimensions is the dimension its definition gives", floor=45)
+    t = Tables(repo)
+    for name, want in sorted(DIMENSIONS.items()):
+        got = t.dims.get(name)
+        if got is None or not hasattr(got, "e"):
+            res.bad(f"dimension:{name}", f"unyt/dimensions.py {name}", f"the named dimension {name} is missing (or not a foldable product of base dimensions)", rid=r5)
+            continue
+        res.check(dict(got.e) == want, f"dimension:{name}", f"unyt/dimensions.py {name}", f"dimensions.{name} is {dict(got.e)}, its definition is {want}: @accepts / @returns declared with it let quantities of another dimension through and refuse the right ones", {k: str(v) for k, v in want.items()}, {k: str(v) for k, v in got.e.items()}, rid=r5)
+    # names defined in the module that the reference does not know would be unchecked: report them as analysis gap
+    known = set(DIMENSIONS) | {"mass", "length", "time", "temperature", "angle", "current_mks", "luminous_intensity", "dimensionless", "logarithmic"}
+    extra = [k for k, v in t.dims.items() if hasattr(v, "e") and k not in known and not k.startswith("_")]
+    if extra:
+        res.note(f"named dimensions without a reference definition (not checked): {sorted(extra)}")
 
 
 def allclose_rules(repo, res):
@@ -284,4 +308,6 @@ MUTANTS = [
     Mutant("has-dimensions-identity", DIM, "_has_dimensions", "return arg_dim == dim", "return arg_dim is dim", ("C19-R4",)),
     Mutant("accepts-calls-first", DIM, "accepts", "            return f(*args, **kwargs)\n\n        return new_f", "            return out\n\n        return new_f", ("C19-R4",)),
     Mutant("returns-alters", DIM, "returns", "            return results\n", "            return result_tuple\n", ("C19-R4",)),
+    Mutant("pop-is-crackle", "unyt/dimensions.py", None, "pop = length / time**6", "pop = length / time**5", ("C19-R5",)),
+    Mutant("rtol-stripped-not-reduced", ARR, "allclose_units", 'rt = rt.in_units("dimensionless").value', "rt = rt.value", ("C19-R1",)),
 ]
